@@ -33,6 +33,9 @@ ROUNDINGS = ["ROUND_HALF_EVEN", "ROUND_CEILING", "ROUND_FLOOR", "ROUND_UP", "ROU
              "ROUND_HALF_DOWN", "ROUND_05UP"]
 PRECS = [28, 28, 29, 34, 50, 100, 999]
 DEFAULT_ENV = {"prec": 28, "rounding": "ROUND_HALF_EVEN"}
+# bounded liveness: the largest generated run (4 threads x 6 v4 observe ops at instruction granularity)
+# needs ~0.6 M pre-emption points; the cap is an order of magnitude above that
+MAX_STEPS = 6000000
 
 
 # ---------------------------------------------------------------------------------------------
@@ -626,7 +629,7 @@ class StateEngine(object):
             actors = [{"env": dict(DEFAULT_ENV), "ops": [first]}, {"env": dict(DEFAULT_ENV), "ops": [second]}]
             refs = self.refs_for(actors)
             rep = fork_run(lambda: execute_in_child(actors, granularity, sched.ReplayDecider([[0, 0]]), refs,
-                                                    self.prefix, self.guard, 300000))
+                                                    self.prefix, self.guard, MAX_STEPS))
             if "child_error" in rep or rep.get("errors"):
                 raise HarnessError("sweep dry run failed: %s" % (rep.get("child_error") or rep.get("errors")))
             # steps 1..N belong to the first op (thread 0 runs alone until it exits at step N+1)
@@ -716,7 +719,7 @@ class StateEngine(object):
         actors = trace["actors"]
         refs = self.refs_for(actors)
         gran = trace["granularity"]
-        rep = fork_run(lambda: execute_in_child(actors, gran, decider, refs, self.prefix, self.guard, 300000))
+        rep = fork_run(lambda: execute_in_child(actors, gran, decider, refs, self.prefix, self.guard, MAX_STEPS))
         if "child_error" in rep:
             raise HarnessError("simulation child failed: %s" % rep["child_error"][-1500:])
         if rep["errors"]:
@@ -737,7 +740,7 @@ class StateEngine(object):
         for i, k, what, msg in rep["inv"]:
             vio.append(violation(PROP, "global-state", what, "after thread %d op %d: %s" % (i, k, msg)))
         if rep["capped"] or not all(rep["finished"]):
-            vio.append(violation(PROP, "liveness", "step-cap", "not all threads finished within %d steps" % 300000))
+            vio.append(violation(PROP, "liveness", "step-cap", "not all threads finished within %d steps" % MAX_STEPS))
         seen = set()
         uniq = []
         for v in vio:
